@@ -29,7 +29,7 @@ from gallia.services.uds.core.exception import ResponseException
 from gallia.services.uds.server import RandomUDSServer, UDSServerTransport
 from gallia.transports import TargetURI
 
-OUTCOMES = ["asis", "asis", "asis", "timeout", "truncated", "foreign", "reset", "pending", "late", "empty_line", "reset_refuse", "pending_storm"]
+OUTCOMES = ["asis", "asis", "asis", "timeout", "truncated", "padded", "foreign", "reset", "pending", "late", "empty_line", "reset_refuse", "pending_storm"]
 
 
 class HistoryConfig(UDSScannerConfig):
@@ -135,6 +135,11 @@ class FaultPeer:
                 elif outcome == "truncated":
                     if genuine is not None:
                         send(genuine[:1])
+                elif outcome == "padded":
+                    # the genuine reply followed by a few more bytes (an echoed record, padding): whatever the client makes
+                    # of it, the row holds these bytes
+                    if genuine is not None:
+                        send(genuine + bytes([0x41, 0x42, 0x43][: 1 + self.n_main % 3]))
                 elif outcome == "foreign":
                     send(b"\x7e\x00" if pdu[0] != 0x3E else b"\x50\x01\x00\x32\x01\xf4")
                 elif outcome == "pending":
@@ -170,7 +175,7 @@ class C11(Check):
     level = "fault_enumeration"
     rule = (
         "histories of 1-40 client requests (independent ISO layout grammar: every service the vECU answers, raw bytes, suppress-bit variants) x outcome per request "
-        "{genuine positive/negative, no reply, truncated reply, foreign reply, connection reset, responsePending then reply, late reply, empty line} x max_retry 0-1 x "
+        "{genuine positive/negative, no reply, truncated reply, reply with extra bytes appended, foreign reply, connection reset, responsePending then reply, late reply, empty line} x max_retry 0-1 x "
         "tester-present worker on/off x implicit logging toggled off/on at drawn points x ANALYZE tag x database writer latency 0.1-50 ms per statement x crash point "
         "{none, exception after request k, Ctrl-C at a virtual instant inside request k} x resets of the client's state view; strata: transient 'database is locked', logging off from the start, state race (tester-present queued behind slow session changes), backlog (> 1000 rows queued at the interrupt). non-trivial = a fault outcome, a toggle or a crash point occurred; "
         "distinct = (sequence of outcome classes, crash kind, options)."
@@ -260,6 +265,15 @@ class C11(Check):
             plan["db_lat"] = 0.0005
             plan["db_locked"] = []
             plan["db_locked_run_meta"] = False
+        # replies that carry more bytes than the service's layout: writes / reads whose positive answer has a tail appended
+        if not plan["state_race"] and rng.random() < 0.06:
+            seq2 = []
+            for _ in range(rng.choice([3, 6, 10])):
+                did_ = rng.choice([0xF190, 0xF191, 0x0000, rng.randrange(0x10000)])
+                seq2.append(f"2e{did_:04x}" + bytes(rng.getrandbits(8) for _ in range(rng.choice([1, 2, 4]))).hex() if rng.random() < 0.6 else f"22{did_:04x}")
+            plan["history"] = [{"pdu": p_, "max_retry": 0, "timeout": 0.3, "analyze": rng.random() < 0.3} for p_ in seq2]
+            plan["outcomes"] = [rng.choice(["padded", "padded", "asis"]) for _ in range(2 * len(seq2) + 2)]
+            plan["crash"] = None
         plan["backlog"] = 0
         if index % 400 == 200:
             # a long run against a database far slower than the ECU: more than a thousand rows are waiting in the writer queue
@@ -481,6 +495,10 @@ class C11(Check):
                 reply = c["reply"]
                 reply = bytes.fromhex(reply) if isinstance(reply, str) else reply
                 exc = c.get("exc") if c["out"] == "raise" else None
+                if c["out"] == "return" and reads_ and reads_[-1] != b"" and reply is not None and reads_[-1] != reply and reads_[-1][:1] == reply[:1]:
+                    # "the exact reply bytes": what was on the wire, not what the codec makes of it when it re-encodes the
+                    # object it handed to the caller
+                    reply = reads_[-1]
             else:
                 data_reads = [bytes.fromhex(r) for r in x["reads"]]
                 rq0 = bytes.fromhex(x["req"])[0] if isinstance(x["req"], str) else x["req"][0]
